@@ -9,7 +9,19 @@ from .natives import nat, REG, D, generic_of, and_all, neg, clone_value, eq_valu
 
 # ====================================================================== Mutex (holder tracking)
 @nat('Mutex::new', '<Mutex as From>::from')
-def mutex_new(ex, v): return MutexV(Cell(v))
+def mutex_new(ex, v):
+    """the label names the lock class (by the protected type) and instance (creation order): G = GlobalData, E = ExecutorState,
+    P = event I/O processor, V = data value, A = action map, R = receiver, F = datamodel factories"""
+    d = v
+    while isinstance(d, Adt) and d.name in ('Box', 'Arc'):
+        d = d.fields[0].v
+    n = d.name if isinstance(d, Adt) else type(d).__name__
+    cls = {'GlobalData': 'G', 'ExecutorState': 'E', 'Data': 'V', 'Receiver': 'R', 'MapV': 'A'}.get(n)
+    if cls is None:
+        cls = 'P' if 'Processor' in n else n
+    k = ex.env.setdefault('mutex_count', {})
+    k[cls] = k.get(cls, 0) + 1
+    return MutexV(Cell(v), '%s%d' % (cls, k[cls]))
 
 
 @nat('Mutex::lock')
@@ -166,6 +178,25 @@ def vnd_run_spawned(ex, i):
 
 @nat('vnd_spawned_count')
 def vnd_spawned_count(ex): return len(ex.spawned)
+
+
+@nat('vnd_thread')
+def vnd_thread(ex, role):
+    """the following calls are made by thread role `role` (lock-order analysis, C17); a thread starts holding nothing"""
+    ex.thread = 'T%d' % role
+    ex.held = []
+    return ()
+
+
+@nat('<datamodel_factories as Deref>::deref')
+def datamodel_factories_deref(ex, r):
+    """the lazy_static registry of datamodel factories: null and rfsm-expression (the feature set of the harness build)"""
+    if 'dmf' not in ex.env:
+        m = MapV()
+        m.items.append([StrV('null'), Adt('Box', 0, [Cell(Adt('NullDatamodelFactory', 0, []))])])
+        m.items.append([StrV('rfsm-expression'), Adt('Box', 0, [Cell(Adt('RFsmExpressionDatamodelFactory', 0, []))])])
+        ex.env['dmf'] = Cell(Adt('Arc', 0, [Cell(MutexV(Cell(m), 'F1'))]))
+    return Ref(ex.env['dmf'])
 
 
 @nat('thread::sleep', 'sleep')
